@@ -414,7 +414,9 @@ func widenValue(a, b Value, lim Itv) Value {
 				hi = saturated.Hi
 			}
 		}
-		if lo == y.Itv.Lo && hi == y.Itv.Hi || (lo.Cmp(y.Itv.Lo) == 0 && hi.Cmp(y.Itv.Hi) == 0) {
+		// widening forgets the relational tag (a new iteration creates new
+		// wide quantities, the old ones must not keep states apart)
+		if y.Tag == nil && lo.Cmp(y.Itv.Lo) == 0 && hi.Cmp(y.Itv.Hi) == 0 {
 			return y
 		}
 		return &Int{Itv: Itv{lo, hi}, Org: joinOrg(x.Org, y.Org)}
